@@ -413,3 +413,26 @@ PROPS['C14'].setdefault('require', {}).update({'huge.strings_whose_length_is_a_v
 PROPS['C16'].setdefault('require', {}).update({'load.format_reason.footer': 8, 'load.format_reason.extra-byte': 8, 'load.format_reason.secret-excess-bits': 8})
 for _p in ('C07', 'C08'):
     PROPS[_p].setdefault('require', {}).update({'bsearch.served_by.first-equal': 1000, 'bsearch.served_by.last-equal': 1000, 'bsearch.served_by.random-pivot': 1000})
+
+# what the later waves added, per check (appended to the manifest texts)
+_LATE = {
+ 'C01': ' A small run executes its first history (inject, create, encode and decode in ten languages) from a constructor before main() and judges it after start-up.',
+ 'C03': ' A small run encodes from a constructor before main().',
+ 'C04': ' Scalar arguments are passed as expressions with a side effect (a header macro that evaluates one twice hands the library a wrong coin); the KDF monitor clobbers the key buffer before it reads password and salt.',
+ 'C06': ' A small run stores and queries a seed created from a constructor before main().',
+ 'C07': ' In two further builds the C library\'s bsearch() is replaced by five conforming strategies in rotation (pivot choice; first or last of several equal elements): every word must still be found at its own index. A small run decodes from a constructor before main().',
+ 'C08': ' Words and abbreviations carrying 1-200 redundant combining marks (piled, spread, in front, behind) go through both decoders; a phrase whose last word carries thousands of marks plus one stray byte, with a normaliser that answers ill-formed input with an empty string, must be seen empty (the end of a long input reaches the normaliser); bsearch() strategies as in C07.',
+ 'C09': ' Generator classes for invisible characters around and inside the phrase (BOM, zero-width, NBSP, CR/LF, quotes) and for 239-528 extra empty or one-letter tokens (counts around 2^8 and 2^9).',
+ 'C10': ' One stripe is built with -pthread; a small run enables features from a constructor before main().',
+ 'C11': ' libc-clock cases rotate through eight POSIX/tzdata time zones including two leap-second zones; one section keeps the clock in a file-scope variable of the calling translation unit, set right before a by-name polyseed_create and restored after it.',
+ 'C12': ' The flag is also queried by name before and after every operation in optimised harness code; buffer-filling passwords are typed in fullwidth (3:1) and mathematical-bold (4:1) letters as well; the KDF monitor clobbers the key buffer first.',
+ 'C13': ' One decode of a string of 2^32 + (length of a valid phrase) bytes sits between ordinary operations; a small run executes its first history from a constructor before main(); stub table B is a positional initialiser in the order of the released header and every table is an exact-size block of eight pointers.',
+ 'C14': ' Strings of 2^32+k and 2^33+k bytes where k is the length of a valid phrase (one 2 MiB chunk mapped repeatedly); the KDF password of a huge ASCII password must be a long-enough prefix of it; the numeric values of the documented status codes, coins and sizes are compared with the released header.',
+ 'C16': ' In this scan the normalisers write their result only, or work in place (the tail of a longer input stays behind the terminator), or answer invalid UTF-8 with an empty string; the FORMAT exit of load rotates through its five reasons; phrases are also typed with ideographic spaces in every language.',
+ 'C17': ' The library\'s own buffer is judged by what it wipes: a string handed to a normaliser from address p must fit the contiguous extent wiped from p. The public size macros are used as numbers in every operator position.',
+ 'C18': ' Callbacks defined in the driver read plain file-scope variables set right before a by-name polyseed_create (wrong leaf/const/pure attributes in the header make the caller\'s compiler drop those stores); every monitor returns with a rotating errno; tables are exact-size blocks of eight pointers, at the end of a page in a third of the injections.',
+ 'C19': ' Generator classes for invisible characters and token counts as in C09.',
+ 'C20': ' The main thread never touches the language registry: every worker finds the languages itself after the start barrier, in a fresh process; TSan builds use -pthread.',
+}
+for _p, _t in _LATE.items():
+    MANIFEST_TEXT[_p]['text'] = MANIFEST_TEXT[_p]['text'].rstrip() + _t
